@@ -861,6 +861,7 @@ class SetItem(Contract):
                 subs.append((sc, se))
             env = {"arr": arr, "labels": labels, "idx": idx, "subs": subs, "indices": tuple(idx), "kwargs": {"indexing": case["indexing"]}}
         arr.attrs["units"] = "K"
+        env["attrs0"] = dict(arr.attrs)
         env["data"] = arr.values
         env["old"] = S.snapshot(arr.values)
         vk = case.get("value_kind", "f")
@@ -956,7 +957,7 @@ class SetItem(Contract):
             yield "other-cells-untouched", S.forall_nd(S.shape(old), lambda *p: S.lor(S.same(S.at(new, *p), S.at(old, *p)), addressed(p)))
         yield "shape-kept", tuple(S.shape(new)) == tuple(S.shape(old)) if S.mode == "nat" else len(S.shape(new)) == len(S.shape(old))
         yield "labels-dims-metadata-untouched", S.land(
-            tuple(target.dims) == tuple("x%d" % d for d in range(rank)), dict(target.attrs) == {"units": "K"},
+            tuple(target.dims) == tuple("x%d" % d for d in range(rank)), dict(target.attrs) == env["attrs0"],
             *[S.forall(0, S.n(labels[d]), lambda k, d=d: S.at(target.axes[d].values, k) == S.at(labels[d], k)) for d in range(rank)])
         if case["cast"]:
             exp = MaybeCastTable(case["data_kind"].lower(), case["value_kind"])
